@@ -32,6 +32,7 @@ CONSTANTS Names,   \* sequence of the element names of the universe
           Design,  \* "list" | "items"
           Base,    \* base path of the sub-tree view (<<>>: no view)
           MaxSlots, \* bound on the elements in the store (exhaustive runs)
+          Ends,    \* end characters offered to assignments (0 = none)
           Strs, Seps, Asgs, Elems   \* path object: strings, separators, end characters, elements to add
 
 VARIABLES tree, st,      \* store: Tier 1, Tier 2
@@ -146,13 +147,17 @@ Eff(via, p) == IF via = "view" THEN Base \o p ELSE p
 Vias == IF Base = <<>> THEN {"top"} ELSE {"top", "view"}
 KeepPath == UNCHANGED <<pel, po>>
 
-\* mpt_config_set(cfg, path, value, sep, 0) / config::set(path, value, sep)
-Assign(via, p, v, sep) ==
+\* mpt_config_set(cfg, path, value, sep, end) / config::set(path, value, sep);
+\* with an end character the path string goes on after it ("a.b=junk"): the
+\* part before it is the path
+Assign(via, p, v, sep, end) ==
   /\ p # <<>>
+  /\ end = 0 \/ (end # sep /\ \A i \in 1..Len(p) : \A j \in 1..Len(p[i]) : p[i][j] # end)
   /\ tree' = TAssign(tree, Eff(via, p), v)
   /\ st' = SAssign(st, Eff(via, p), v)
   /\ KeepPath
-  /\ AnsC("assign", [via |-> via, path |-> Join(p, sep), sep |-> sep, val |-> v], "ok")
+  /\ AnsC("assign", [via |-> via, path |-> IF end = 0 THEN Join(p, sep) ELSE Join(p, sep) \o <<end, 122>>,
+                      sep |-> sep, end |-> end, val |-> v], "ok")
 
 \* mpt_config_set(cfg, path, 0, sep, 0) / config::set(path, 0, sep): the element
 \* and everything below it goes; nothing else
@@ -284,7 +289,7 @@ UniSet == {Uni[i] : i \in 1..Len(Uni)}
 RelSet == {RelUni[i] : i \in 1..Len(RelUni)} \ {<<>>}
 PathsVia(via) == IF via = "view" THEN RelSet ELSE UniSet
 NextC ==
-  \/ \E via \in Vias : \E p \in PathsVia(via) : \E v \in Vals : Assign(via, p, v, Sep)
+  \/ \E via \in Vias : \E p \in PathsVia(via) : \E v \in Vals, e \in Ends : Assign(via, p, v, Sep, e)
   \/ \E via \in Vias : \E p \in PathsVia(via) : Remove(via, p, Sep) \/ Query(via, p, Sep)
   \/ \E v \in Vals : AssignSelf(v)
   \/ ClearBelow \/ ClearAll
@@ -306,7 +311,7 @@ SpecP == Init /\ [][NextP]_vars
 MapStep ==
   LET a == obs'.a g == obs'.arg IN
   /\ a = "assign" =>
-       LET p == Eff(g.via, Split(g.path, g.sep)) IN
+       LET p == Eff(g.via, Split(UpTo(g.path, g.end), g.sep)) IN
        /\ TGet(tree', p) = g.val
        /\ \A q \in DOMAIN tree : q # p => TGet(tree', q) = tree[q]
        /\ \A q \in DOMAIN tree' : q \in DOMAIN tree \/ IsPrefix(q, p)
